@@ -164,6 +164,27 @@ func checkRefusal(c refuseCase) error {
 	return nil
 }
 
+// the one EDNS0 option that carries a domain name
+func checkOptionRefusal(c refuseCase) error {
+	pbt.Note([]byte("opt"+c.Bad), true, "why:"+c.Why, "type:OPT")
+	if c.Why == "not fully qualified" {
+		return nil // the agent domain is completed with Fqdn by the option's packer
+	}
+	opt := &dns.OPT{Hdr: dns.RR_Header{Name: ".", Rrtype: dns.TypeOPT, Class: 1232}}
+	opt.Option = []dns.EDNS0{&dns.EDNS0_REPORTING{Code: dns.EDNS0REPORTING, AgentDomain: c.Bad}}
+	m := new(dns.Msg)
+	m.Extra = []dns.RR{opt}
+	if p, err := m.Pack(); err == nil {
+		return pbt.Errf("Msg.Pack accepts a REPORTING option whose agent domain is %q (%s): %d octets, no error", short(c.Bad), c.Why, len(p))
+	}
+	return nil
+}
+
 func init() {
+	pbt.RegisterEnum(pbt.Enum[refuseCase]{Name: "option-name-refuses-bad-names", Exhaustive: true, Each: func(emit func(refuseCase)) {
+		for _, b := range badNames {
+			emit(refuseCase{Type: wm.TOPT, Bad: b.text, Why: b.why})
+		}
+	}, Check: checkOptionRefusal})
 	pbt.RegisterEnum(pbt.Enum[refuseCase]{Name: "every-name-field-refuses-bad-names", Exhaustive: true, Each: eachRefusal, Check: checkRefusal})
 }
